@@ -1,11 +1,14 @@
-"""C07 - see DESIGN.md section 6."""
+"""C07 - hybrid Rush-Larsen applies RL to exactly the stiff states and Euler to the rest."""
 from .. import core
 from . import structural
+from .c06 import run_scheme_corpus
 
 
 def main(chk: core.Check, replay):
     if replay:
         return core.replay_generic(chk, replay)
+    # batches of 12 states with a random stiff subset (plus a foreign name) per generated module
+    run_scheme_corpus(chk, "C07", {"hybrid_rush_larsen", "generate"})
     structural.run(chk, "C07")
 
 
